@@ -88,8 +88,8 @@ def run_one(e, modes, vals):
     A.Abstract.initialize(dict(vals))
     ap = A.Party("p")
     acls = {"pub": A.PublicInteger, "sec": A.SecretInteger}
-    aenv = {n: (A.Integer(vals[n]) if m == "const" else acls[m](A.Input(n, ap))) for n, m in modes.items()}
     try:
+        aenv = {n: (A.Integer(vals[n]) if m == "const" else acls[m](A.Input(n, ap))) for n, m in modes.items()}
         a = build(e, aenv, A.Integer)
         absr = ("ok", type(a).__name__, getattr(a, "value", None))
     except Exception as exc:  # pylint: disable=broad-except
